@@ -17,7 +17,7 @@ from .extract import LostAnchor, Unsupported
 from .lexer import LexError
 
 VERIFY_FAIL = [
-    ('post', re.compile(r'postcondition not satisfied')),
+    ('post', re.compile(r'postcondition not satisfied|unable to prove post-?condition of closure')),
     ('pre', re.compile(r'precondition not satisfied')),
     ('inv', re.compile(r'invariant not satisfied')),
     ('assert', re.compile(r'assertion failed|assertion might not hold|unreachable')),
